@@ -989,6 +989,23 @@ func (ex *Exec) format(f *Term, args SliceV) (*Term, []Iface) {
 			if !verb {
 				return f, nil
 			}
+			// the only '%' is the last byte: fmt prints the text before it followed by "%!(NOVERB)"
+			last := bs[len(bs)-1]
+			onlyLast := true
+			for _, b := range bs[:len(bs)-1] {
+				if !b.IsLit() || byte(b.I.Int64()) == '%' {
+					if !b.IsLit() {
+						if eq := Eq(b, ByteLit('%')); ex.feasible(eq) && !ex.feasible(Not(eq)) {
+							onlyLast = false
+						}
+					} else {
+						onlyLast = false
+					}
+				}
+			}
+			if onlyLast && (last.IsLit() && byte(last.I.Int64()) == '%' || !last.IsLit() && !ex.feasible(Not(Eq(last, ByteLit('%'))))) {
+				return SeqConcat(seqFromBytes(bs[:len(bs)-1]), StrLit("%!(NOVERB)")), nil
+			}
 		}
 		return ex.fresh("fmtmsg", SSeq, "env"), nil
 	}
